@@ -4,10 +4,13 @@ go 1.24.0
 
 require (
 	github.com/itchyny/timefmt-go v0.1.8
+	github.com/mattn/go-runewidth v0.0.19
 	golang.org/x/tools v0.29.0
 )
 
 require (
+	github.com/clipperhouse/stringish v0.1.1 // indirect
+	github.com/clipperhouse/uax29/v2 v2.3.0 // indirect
 	golang.org/x/mod v0.22.0 // indirect
 	golang.org/x/sync v0.10.0 // indirect
 )
